@@ -45,6 +45,7 @@ class Spec:
     offered: tuple = ()            # other suites offered in ClientHello besides the selected one
     use_rsa_label: bool = False    # <= 1.2: log the pre-master secret ("RSA <enc-pms-prefix> <pms>") - not generated (needs the encrypted PMS)
     keylog_extra: bool = True      # EXPORTER_SECRET etc. lines present
+    master: bytes = None           # <= 1.2: use this master secret (a resumption shares it with the session it resumes; randoms are fresh)
     warn_alert: bool = False       # <= 1.2: the server sends a plaintext warning alert (unrecognized_name) right after its ServerHello record(s)
     cert_trap: bool = False        # Certificate body that reads as extensions 0x0016 / 0x002b=0304 to a parser that walks past the ServerHello
 
@@ -205,7 +206,7 @@ def build_conn(spec: Spec, rng) -> Conn:
         return _finish(spec, ev, keylog, truth, ref_keys, cr, sr, p)
 
     # ---------------- SSL3 .. TLS1.2
-    master = rb(48)
+    master = spec.master if spec.master is not None else rb(48)
     keylog.append(f"CLIENT_RANDOM {cr.hex()} {master.hex()}")
     if p["aead"]:
         iv_len = 12 if p["mode"] == "CHACHA" else 4
